@@ -169,6 +169,13 @@ func (r *Run) Hash() uint64   { r.mu.Lock(); defer r.mu.Unlock(); return r.hash 
 func (r *Run) Events() uint64 { r.mu.Lock(); defer r.mu.Unlock(); return r.events_ }
 
 func (r *Run) Fault(kind string) { r.mu.Lock(); r.Faults[kind]++; r.mu.Unlock() }
+func (r *Run) FaultN(kind string, n int64) {
+	if n > 0 {
+		r.mu.Lock()
+		r.Faults[kind] += n
+		r.mu.Unlock()
+	}
+}
 func (r *Run) Probe(name string) { r.mu.Lock(); r.Probes[name]++; r.mu.Unlock() }
 func (r *Run) Count(name string, n int64) {
 	r.mu.Lock()
@@ -563,6 +570,9 @@ func (r *Run) YieldAt(site string) bool {
 		}
 		v = r.Tape.Bool(r.YieldNum, r.YieldDen, "ysite")
 		r.yieldSites[site] = v
+	}
+	if v {
+		r.Faults["preempted-between-statements"]++
 	}
 	return v
 }
